@@ -28,6 +28,6 @@ def check(run):
     t = run.tier == "thorough"
     run.mc("MC_Blind", consts={"StartSec": 1709078400, "Steps": 2000 if t else 400, "StepSec": 1800}, invariants=["AEADSound", "DayFunction"], tag="MC_Blind_leapday", workers=4)
     run.mc("MC_Blind", consts={"StartSec": 1735603200, "Steps": 400, "StepSec": 1733}, invariants=["DayFunction"], tag="MC_Blind_newyear", workers=4)
-    run.gen("Gen_C16")
+    run.gen("Gen_C16", consts={"Part": "all"})
     run.replay_and_judge()
     return vlib.finish(run, "model_checking", RULE, ASSUME)
